@@ -76,8 +76,9 @@ struct Fail
 
 // Well-formedness of a valid AnalyserModel; classes of connected variables come from the harness's own reachability.
 // Fills the per-(harness-)class observations. Returns false at the first problem.
-bool wellFormed(const AnalyserModelPtr &am, const ModelPtr &model, std::map<Variable *, int> &hclass, size_t &nClasses, std::vector<AnalyserVariablePtr> &avOfClass, Fail fail)
+bool wellFormed(const AnalyserModelPtr &am, const ModelPtr &model, std::map<Variable *, int> &hclass, size_t &nClasses, std::vector<AnalyserVariablePtr> &avOfClass, bool &placed, Fail fail)
 {
+    placed = false;
     const size_t none = static_cast<size_t>(-1);
     // ---- classes by reachability over Variable::equivalentVariable
     std::vector<VariablePtr> all;
@@ -173,6 +174,7 @@ bool wellFormed(const AnalyserModelPtr &am, const ModelPtr &model, std::map<Vari
         // a model with states has a voi and vice versa (a voi exists only through an ODE)
         return fail("C05.wf|voi-vs-states", std::string("voi() is ") + (am->voi() == nullptr ? "null" : "set") + " but there are " + std::to_string(states.size()) + " states");
     }
+    placed = true; // every class has its analyser variable: roles can be read off even if something below is wrong
     // ---- equations
     std::map<AnalyserEquation *, size_t> eqPos;
     for (size_t i = 0; i < equations.size(); ++i) {
@@ -362,7 +364,9 @@ bool wellFormed(const AnalyserModelPtr &am, const ModelPtr &model, std::map<Vari
             }
             for (const auto &need : av->equations()) {
                 if (need != nullptr && std::find(deps.begin(), deps.end(), need) == deps.end()) {
-                    return fail("C05.wf|dependency-missing|" + AnalyserEquation::typeAsString(e->type()) + "-reads-" + AnalyserVariable::typeAsString(av->type()),
+                    // localisation token of a known finding: the variable's primary variable is not the one carrying its initial value
+                    bool elsewhere = av->initialisingVariable() != nullptr && av->initialisingVariable() != av->variable();
+                    return fail("C05.wf|dependency-missing|" + AnalyserEquation::typeAsString(e->type()) + "-reads-" + AnalyserVariable::typeAsString(av->type()) + (elsewhere ? "|initialised-elsewhere" : ""),
                                 "equation " + std::to_string(i) + " (" + AnalyserEquation::typeAsString(e->type()) + ") reads " + varName(rv) + " (" + AnalyserVariable::typeAsString(av->type()) + "), but equation " + std::to_string(eqPos[need.get()]) + ", which computes it, is not among its dependencies");
                 }
             }
@@ -461,7 +465,8 @@ void analyse(const TM &m, Obs &o)
     std::map<Variable *, int> hclass;
     size_t nh = 0;
     std::vector<AnalyserVariablePtr> avOfH;
-    if (!wellFormed(am, b.model, hclass, nh, avOfH, fail)) {
+    bool placed = false;
+    if (!wellFormed(am, b.model, hclass, nh, avOfH, placed, fail) && !placed) {
         return;
     }
     // the harness's reachability classes against the classes the model was constructed with
@@ -514,6 +519,9 @@ void analyse(const TM &m, Obs &o)
     }
     std::map<size_t, int> sysLabel;
     for (const auto &e : am->equations()) {
+        if (e == nullptr) {
+            continue;
+        }
         o.eqTypes.insert(AnalyserEquation::typeAsString(e->type()));
         if (e->type() == AnalyserEquation::Type::NLA) {
             for (const auto &v : e->variables()) {
@@ -528,7 +536,7 @@ void analyse(const TM &m, Obs &o)
         }
     }
     for (const auto &e : am->equations()) {
-        if (e->type() == AnalyserEquation::Type::NLA) {
+        if (e != nullptr && e->type() == AnalyserEquation::Type::NLA) {
             for (const auto &v : e->variables()) {
                 auto it = clsOfAv.find(v.get());
                 if (it != clsOfAv.end()) {
@@ -537,14 +545,11 @@ void analyse(const TM &m, Obs &o)
             }
         }
     }
+    o.rolesOk = true;
 }
 
 std::string checkTruth(const TM &m, const Obs &o, std::string &msg)
 {
-    if (!o.sig.empty()) {
-        msg = o.msg;
-        return o.sig;
-    }
     if (o.type != m.type) {
         msg = "the model is " + m.type + " by construction but the analyser reports " + o.type + "\n" + o.issues;
         return "C05.truth|type|" + m.type + "->" + o.type;
@@ -552,6 +557,9 @@ std::string checkTruth(const TM &m, const Obs &o, std::string &msg)
     if (o.errors != 0) {
         msg = "a valid analyser model comes with error issues\n" + o.issues;
         return "C05.truth|valid-with-errors";
+    }
+    if (!o.rolesOk) {
+        return ""; // the analyser model is too malformed to read roles off it; that has been reported as such
     }
     auto firstInstance = [&](size_t k) {
         for (size_t ci = 0; ci < m.classOf.size(); ++ci) {
@@ -687,6 +695,9 @@ std::string compareObs(const TM &m, const Obs &a, const Obs &b, std::string &msg
         o << "state/variable counts " << a.nStates << "/" << a.nVars << " became " << b.nStates << "/" << b.nVars;
         msg = o.str();
         return "counts";
+    }
+    if (!a.rolesOk || !b.rolesOk) {
+        return "";
     }
     for (size_t k = 0; k < m.classes.size(); ++k) {
         if (a.role[k] != b.role[k]) {
